@@ -119,7 +119,7 @@ Qed.
 (* ---------------------------------------------------------------- the job-step subsystem (no API call) *)
 Definition job_action (a : action) : Prop :=
   match a with
-  | ABodyImport _ | ABodyTag _ | ABodyConvert | ABodyMerge | AComplete _ => True
+  | ABodyImport _ | ABodyTag _ | ABodyConvert _ | ABodyMerge | AComplete _ => True
   | _ => False
   end.
 
@@ -155,7 +155,7 @@ Proof. intros (A & B & _ & D). split; [exact A|split; [exact B|exact D]]. Qed.
 
 (* the body of a job changes neither what is pending nor which jobs exist *)
 Lemma covered_body k p a st :
-  match a with ABodyImport _ | ABodyTag _ | ABodyConvert | ABodyMerge => True | _ => False end ->
+  match a with ABodyImport _ | ABodyTag _ | ABodyConvert _ | ABodyMerge => True | _ => False end ->
   covered st -> covered (step k p a st).
 Proof.
   intros Ha (HT & HC & HM & HI). destruct a; try destruct Ha; simpl.
@@ -258,7 +258,7 @@ Definition w_merge : list (N * action) :=
    (3, ASetConv 3 [0]);
    (3, AImport [1]); (3, ABodyImport (mkIresp 1 1 0 2 2 [3])); (3, AComplete JImport);
    (3, ABodyTag [(3, 1)]); (3, AComplete JTag);
-   (3, ABodyConvert); (3, AComplete JConvert); (3, ABodyConvert); (3, AComplete JConvert)].
+   (3, ABodyConvert []); (3, AComplete JConvert); (3, ABodyConvert []); (3, AComplete JConvert)].
 
 Definition rest_with_eligible_merge (st : state) : bool :=
   match jimp st, jtag st, jconv st, jmerge st, merge_eligible st with
